@@ -78,8 +78,27 @@ def run(ctx):
             r.ok("summary|multiline", "summary adds the match total only in multi-line mode", fn=f, nontrivial=False)
         else:
             r.bad("summary|multiline", "SummarySink::matched no longer distinguishes multi-line counting", fn=f)
+        # ... and never under inversion: the lines handed over then contain no match at all, the re-discovered count is 0 and
+        # `-U -v -c` would print nothing although `-U -v` prints lines. The per-match addition (match_count += <non-constant>)
+        # must sit on the !invert_match() edge.
+        inv = cond_switches(f, lambda e: is_call(e, "grep_searcher::searcher::Searcher::invert_match"), eb)
+        varadd = []
+        for bb, j, st in f.stmts():
+            if st["k"] == "assign" and st["rv"]["k"] == "bin" and st["rv"]["op"] in ("Add", "AddWithOverflow"):
+                e = eb.rvalue(st["rv"])
+                if any(x.k == "field" and x[3] == "match_count" for x in walk(e)) and \
+                        not any(W.const_val(a) == 1 for a in (e[2], e[3])):
+                    varadd.append(bb)
+        if not varadd:
+            r.ok("summary|invert", "no per-match addition to match_count", fn=f, nontrivial=False)
+        elif inv and not guarded(f, varadd, inv, False):
+            r.ok("summary|invert", "per-match counting only when the search is not inverted", fn=f)
+        else:
+            r.bad("summary|invert", "SummarySink::matched adds the number of re-discovered matches to the count even when the search "
+                  "is inverted: inverted lines contain no match, so -U -v -c counts 0 and reports nothing where -U -v prints lines",
+                  fn=f, construct="summary-invert")
 
-    with ctx.rule("C10.STATS", "all sinks feed Stats the same way; every consumer of find_iter_at_in_context enumerated", floor=9,
+    with ctx.rule("C10.STATS", "all sinks feed Stats the same way; every consumer of find_iter_at_in_context enumerated; drivers sum every file", floor=11,
                   kind="PARITY/FLOW") as r:
         users = sorted({c.fn.path.split("::{closure")[0] for c in facts.callers_of(FIND)})
         KNOWN = {SINKS["standard"] + "::record_matches", SINKS["json"] + "::record_matches",
@@ -92,6 +111,26 @@ def run(ctx):
                       "has to agree with the three sinks" % u, fn=u, construct="consumer")
         for k in KNOWN - set(users):
             r.bad("consumer|" + k, "%s no longer re-discovers matches through find_iter_at_in_context" % k, construct="consumer")
+        # the drivers add every searched file's Stats to the total, matched or not ("--stats totals equal the sums over files")
+        HM = "rg::search::SearchResult::has_match"
+        AA = "core::ops::arith::AddAssign::add_assign"
+        drivers = [facts.fn("rg::search")] + [c_ for c_ in facts.closures_of("rg::search_parallel")
+                                                if c_.calls_to("rg::search::SearchWorker::search")]
+        for d_ in drivers:
+            ebd = ExprBuilder(d_)
+            adds = [c for c in d_.calls() if c.path == AA and "grep_printer::stats::Stats" in str(c.func.get("resolved", "")) + str(c.names)]
+            key = "aggregate|" + d_.path.split("::{closure")[0].split("::")[-1]
+            if not adds:
+                r.bad(key, "%s no longer adds the per-file Stats to the total" % d_.path, fn=d_, construct="stats-aggregate")
+                continue
+            sw = cond_switches(d_, lambda e: is_call(e, HM), ebd)
+            gated = [c for c in adds if sw and not guarded(d_, [c.bb], sw, True)]
+            if gated:
+                r.bad(key, "%s adds a file's Stats to the total only when it matched: files searched / bytes searched then count "
+                      "matching files only and differ from the single-threaded run and from -c --include-zero" % d_.path, fn=d_,
+                      loc=gated[0].loc, construct="stats-aggregate")
+            else:
+                r.ok(key, "per-file Stats added to the total whether or not the file matched", fn=d_)
         for name, adt in SINKS.items():
             f = sink_fn(facts, adt, "matched")
             eb = ExprBuilder(f)
@@ -272,19 +311,43 @@ def run(ctx):
         SM = "rg::flags::lowargs::SearchMode"
         # find the inner match on *mode
         ms = [x for x in H.find(f.hir, lambda x: x.get("k") == "match" and x.get("scrut_ty") == SM)]
-        rewrites = {}
+        # Decide the normalisation as a table over (mode, -o, -v): evaluate the arms in source order (first arm whose
+        # pattern and guard hold wins, single pass) and compare with what the modes mean: --count-matches under -v counts
+        # nothing useful and is --count; -o turns --count into --count-matches (only without -v, for the same reason).
+        import itertools
+        arms_ = []
         for m in ms:
             for a in m["arms"]:
                 pat = H.canon_pat(a["pat"]).split("::")[-1]
-                guard = H.canon(a["guard"]) if "guard" in a else None
                 assigns = [H.canon(x["r"]).split("::")[-1] for x in H.find(a["body"], lambda x: x.get("k") == "assign")]
-                if assigns:
-                    rewrites[(pat, guard)] = assigns
-        want = {("CountMatches", "low.invert_match"): ["Count"], ("Count", "low.only_matching"): ["CountMatches"]}
-        if rewrites == want:
-            r.ok("normalise", "(-v, --count-matches) ⇒ --count; (-o, --count) ⇒ --count-matches; nothing else", fn=f)
+                arms_.append((pat, a.get("guard"), assigns))
+        A_O, A_V = "low.only_matching", "low.invert_match"
+        bad_rows, unknown = [], None
+        for m0, o, v in itertools.product(("Count", "CountMatches"), (False, True), (False, True)):
+            got = m0
+            for pat, guard, assigns in arms_:
+                if pat not in (m0, "_"):
+                    continue
+                try:
+                    hold = True if guard is None else H.evalb(guard, {A_O: o, A_V: v})
+                except KeyError as e_:
+                    unknown = str(e_)
+                    hold = False
+                if hold:
+                    if assigns:
+                        got = assigns[-1]
+                    break
+            want = "Count" if v else ("CountMatches" if (o or m0 == "CountMatches") else "Count")
+            if got != want:
+                bad_rows.append("(%s, -o=%d, -v=%d) ⇒ %s, expected %s" % (m0, o, v, got, want))
+        others = [pat for pat, g, asg in arms_ if asg and pat not in ("Count", "CountMatches")]
+        if unknown:
+            r.bad("normalise", "mode normalisation depends on %s besides -o / -v" % unknown, fn=f, construct="normalise")
+        elif bad_rows or others:
+            r.bad("normalise", "mode normalisation: %s%s" % ("; ".join(bad_rows), (" rewrites also %s" % others) if others else ""),
+                  fn=f, construct="normalise")
         else:
-            r.bad("normalise", "mode normalisation is %s, specified %s" % (rewrites, want), fn=f, construct="normalise")
+            r.ok("normalise", "8-row table: -v ⇒ --count; else -o ∨ --count-matches ⇒ --count-matches; else --count", fn=f)
         # it precedes every use of low.mode by other conversions
         qam = None
         for x in H.walk(f.hir):
